@@ -265,7 +265,7 @@ def main(tier):
     # replay directories of this check are named after (seed, tier); drop the
     # ones a previous run with the same (seed, tier) left behind
     run.replay_prefix = "s%d-%s-" % (seed, tier)
-    rdir = os.path.join(common.VERIF, "replays", "C17")
+    rdir = os.path.join(common.OUT, "replays", "C17")
     if os.path.isdir(rdir):
         for fn in os.listdir(rdir):
             if fn.startswith(run.replay_prefix):
